@@ -167,10 +167,36 @@ func serverSession(tag byte, n int) func(l logger) {
 	}
 }
 
+// sharedDialer is a package-level dialer value used by several sessions at once, the way an
+// application shares ws.DefaultDialer or its own configured dialer.
+var sharedDialer ws.Dialer
+
+func resetShared() {
+	sharedDialer = ws.Dialer{Protocols: []string{"alpha", "beta"}, Extensions: []httphead.Option{httphead.NewOption("foo", map[string]string{"q": "1"}), httphead.NewOption("bar", nil)}}
+}
+
+func sharedDigest() string {
+	var b strings.Builder
+	fmt.Fprintf(&b, "%q", sharedDialer.Protocols)
+	for _, o := range sharedDialer.Extensions {
+		fmt.Fprintf(&b, " %q{", o.Name)
+		o.Parameters.ForEach(func(k, v []byte) bool { fmt.Fprintf(&b, "%q=%q;", k, v); return true })
+		b.WriteString("}")
+	}
+	return b.String()
+}
+
 // clientSession: dial-side handshake with trailing frames, client write, reads incl. ping and close.
-func clientSession(tag byte, n int) func(l logger) {
+func clientSession(tag byte, n int) func(l logger) { return clientSessionX(tag, n, false) }
+
+func clientSessionX(tag byte, n int, shared bool) func(l logger) {
 	return func(l logger) {
 		d := ws.Dialer{Protocols: []string{"alpha" + string(tag), "beta" + string(tag)}, Extensions: []httphead.Option{httphead.NewOption("foo"+string(tag), map[string]string{"q": "1"})}}
+		ptag := string(tag)
+		if shared {
+			d = sharedDialer
+			ptag = ""
+		}
 		srvMsg := fill(n, tag+3)
 		ping := fill(33, tag+4)
 		trailing := append(append(append(mkFrame(1, true, false, []byte("hello-"+string(tag))), mkFrame(9, true, false, ping)...), mkFrame(2, true, false, srvMsg)...),
@@ -179,7 +205,7 @@ func clientSession(tag byte, n int) func(l logger) {
 		var connR io.Reader = ySrc{conn, l}
 		conn.Respond = func(req []byte) []byte {
 			return append([]byte("HTTP/1.1 101 Switching Protocols\r\nUpgrade: websocket\r\nConnection: Upgrade\r\nSec-WebSocket-Accept: "+hs.Accept(hs.KeyOf(req))+
-				"\r\nSec-WebSocket-Protocol: beta"+string(tag)+"\r\nSec-WebSocket-Extensions: foo"+string(tag)+"; a=1"+string(tag)+"\r\n\r\n"), trailing...)
+				"\r\nSec-WebSocket-Protocol: beta"+ptag+"\r\nSec-WebSocket-Extensions: foo"+ptag+"; a=1"+string(tag)+"; zz"+string(tag)+"\r\n\r\n"), trailing...)
 		}
 		br, h, err := d.Upgrade(conn, theURL)
 		rq := hs.ParseHead(conn.Req.Bytes())
@@ -270,6 +296,8 @@ func sessions() map[string]session {
 	add("S2", clientSession('d', 30))
 	add("S2b", clientSession('e', 30))
 	add("S2L", clientSession('f', 5000))
+	add("S2s", clientSessionX('g', 30, true))
+	add("S2t", clientSessionX('h', 30, true))
 	add("S3", utilSession(1, 150))
 	add("S3b", utilSession(2, 150))
 	add("S3L", utilSession(3, 5000))
@@ -290,6 +318,7 @@ func globalsDigest() string {
 
 // solo runs a session alone on the non-recycling pool.
 func solo(s session) []string {
+	resetShared()
 	vsync.Hook = nil
 	vsync.SetMode(vsync.Fresh)
 	vsync.ResetAll()
@@ -333,6 +362,8 @@ func runMix(t *explore.T, names []string, all map[string]session, ref map[string
 	t.Explore(desc, opts, func(c *explore.Chooser) *explore.Fail {
 		vsync.SetMode(vsync.LIFOPoison)
 		vsync.ResetAll()
+		resetShared()
+		shared0 := sharedDigest()
 		s := sched.New()
 		tab := &objTable{ids: map[uintptr]int{}}
 		vsync.Hook = func(phase, op string, p *vsync.Pool, x interface{}) {
@@ -393,6 +424,9 @@ func runMix(t *explore.T, names []string, all map[string]session, ref map[string
 		if g := globalsDigest(); g != g0 {
 			return explore.Failf("package-level-values-changed", "")
 		}
+		if sd := sharedDigest(); sd != shared0 {
+			return explore.Failf("shared-dialer-configuration-changed", "before %s\nafter  %s", shared0, sd)
+		}
 		t.Outcome(fmt.Sprintf("preemptions=%d", s.Preemptions))
 		return nil
 	})
@@ -413,6 +447,7 @@ func racePass() {
 	ref := map[string][]string{}
 	vsync.Hook = nil
 	vsync.SetMode(vsync.Passthrough)
+	resetShared()
 	for _, n := range names {
 		l := &soloLog{}
 		all[n].body(l)
@@ -469,6 +504,7 @@ func main() {
 					a := solo(s)
 					vsync.SetMode(vsync.LIFOPoison)
 					vsync.ResetAll()
+					resetShared()
 					l := &soloLog{}
 					s.body(l)
 					b := l.lines
@@ -484,7 +520,7 @@ func main() {
 			t.Outcome("deterministic")
 			t.Note("each session alone: same log on the non-recycling pool twice and on the poisoning LIFO pool")
 		})
-		mixes2 := [][]string{{"S1", "S2"}, {"S1", "S1b"}, {"S2", "S2b"}, {"S1", "S3"}, {"S2", "S3"}, {"S3", "S3b"}, {"S1L", "S2L"}, {"S1L", "S1"}, {"S3L", "S2"}, {"S3L", "S3"}}
+		mixes2 := [][]string{{"S2s", "S2t"}, {"S1", "S2"}, {"S1", "S1b"}, {"S2", "S2b"}, {"S1", "S3"}, {"S2", "S3"}, {"S3", "S3b"}, {"S1L", "S2L"}, {"S1L", "S1"}, {"S3L", "S2"}, {"S3L", "S3"}}
 		mixes3 := [][]string{{"S1", "S2", "S3"}, {"S1", "S1b", "S2"}, {"S2", "S2b", "S3"}}
 		r.Part("E1-two-sessions-preemption-bounded", func(t *explore.T) {
 			b := t.Pick(2, 3)
